@@ -342,6 +342,8 @@ impl HandshakeState {
     /// Will result in `StateProblem::Exhausted` if the max nonce count overflows.
     pub fn read_message(&mut self, message: &[u8], payload: &mut [u8]) -> Result<usize, Error> {
         let checkpoint = self.symmetricstate.checkpoint();
+        // A rejected message must not leave (parts of) its unauthenticated key fields behind.
+        let (rs, re) = (self.rs, self.re);
         match self._read_message(message, payload) {
             Ok(res) => {
                 self.pattern_position += 1;
@@ -350,6 +352,8 @@ impl HandshakeState {
             },
             Err(err) => {
                 self.symmetricstate.restore(checkpoint);
+                self.rs = rs;
+                self.re = re;
                 Err(err)
             },
         }
